@@ -352,8 +352,8 @@ def d8_7(ctx):
 # fixed-width value made from fewer bytes (keyed by class / function, the operation and the folded value of its arguments, never by
 # line or by the spelling of the argument)
 ACCEPTED_RAW_STREAM_OPS = {
-    ("STRINGI.decode", "read", (3,)): "the 3 bytes are re-decoded as a SHORT_STRING of declared length 3, which checks the length",
-    ("STRINGI.decode", "read", (1,)): "indexed with [0]: an empty result raises inside the contained decoder",
+    ("STRINGI", "read", (3,)): "the 3 bytes are re-decoded as a SHORT_STRING of declared length 3, which checks the length",
+    ("STRINGI", "read", (1,)): "indexed with [0]: an empty result raises inside the contained decoder",
 }
 # structural acceptances: (a) any raw read inside the checked primitive `_stream_read` itself (empty -> BufferEmptyError, short ->
 # DataError: D8.2 decides that); (b) a raw read on a name that the function has rebound, once and before the read, to a BytesIO over
@@ -394,7 +394,7 @@ def d8_9(ctx):
             if not (isinstance(recv, ast.Name) and recv.id in ("stream", "buffer", "_stream", "data_stream")):
                 continue
             args = tuple(ctx.folder.eval(a, fi.module) for a in c.args)
-            k = (q, c.func.attr, args if all(isinstance(a, int) for a in args) else (src(c),))
+            k = (q.split(".")[0], c.func.attr, args if all(isinstance(a, int) for a in args) else (src(c),))  # (keyed by class: the reads may sit in any of its methods)
             seen.add(k)
             why = ACCEPTED_RAW_STREAM_OPS.get(k)
             if why is None and fi.node.name == "_stream_read" and c.func.attr == "read":
@@ -409,4 +409,4 @@ def d8_9(ctx):
                                                                      f"(a fixed-width value can be produced from fewer bytes than its width)")
     gone = [k for k in ACCEPTED_RAW_STREAM_OPS if k not in seen]
     # a vanished accepted instance is not an error (the code may have been tightened); it is reported in the facts
-    ctx.ok(ckey(f"{DT}:DataType", "raw-stream-census"), None, f"{n_ok} raw stream operation(s), all enumerated", no_longer_present=[f"{a}: {b}" for a, b in gone])
+    ctx.ok(ckey(f"{DT}:DataType", "raw-stream-census"), None, f"{n_ok} raw stream operation(s), all enumerated", no_longer_present=[f"{k_[0]}: {k_[1]}{k_[2]}" for k_ in gone])
